@@ -68,6 +68,13 @@ impl quote::ToTokens for RuntimeSize {
     }
 }
 
+/// Test whether an expression is a top level `expr as type` cast.
+fn ends_with_cast(value: &proc_macro2::TokenStream) -> bool {
+    let tokens = value.clone().into_iter().collect::<Vec<_>>();
+    tokens.len() >= 2
+        && matches!(&tokens[tokens.len() - 2], proc_macro2::TokenTree::Ident(id) if id == "as")
+}
+
 /// Represents part of a compound bit-field.
 struct BitField {
     value: proc_macro2::TokenStream,
@@ -490,6 +497,10 @@ impl Encoder {
                     // We will be combining values with `|`, so we
                     // need to cast them first.
                     value = quote! { (#value as #chunk_type) };
+                } else if shift > 0 && ends_with_cast(&value) {
+                    // `x as uN << shift` does not parse: `<` after a
+                    // type is taken for the start of generic arguments.
+                    value = quote! { (#value) };
                 }
                 if shift > 0 {
                     let op = quote!(<<);
